@@ -39,7 +39,7 @@ Example C35_example :
   let fa := {| f_moves := true; f_pcev := true; f_acc_hist := true; f_tx_hist := true; f_hash := true |} in
   let P := fun s d a => {| p_src := s; p_dst := d; p_asset := "USD"; p_amt := a |} in
   let h := [(10, {| o_in := ICreate [P "world" "alice" 10] (Some 5) "r" [("k","v")] [("alice", [("x","y")])] false; o_ik := "i"; o_dry := false |});
-            (11, {| o_in := IRevert 1 false true; o_ik := ""; o_dry := false |});
+            (11, {| o_in := IRevert 1 false true []; o_ik := ""; o_dry := false |});
             (12, {| o_in := ISetMeta (TAcc "alice") [("x","z")]; o_ik := ""; o_dry := false |})] in
   List.length (s_moves (run fa h)) = 4%nat /\ List.length (s_ahist (run fa h)) = 3%nat /\ s_moves (run f0 h) = [] /\
   erase (run fa h) = run f0 h /\ List.length (s_logs (run f0 h)) = 3%nat.
